@@ -142,8 +142,13 @@ def build(tier, repo):
     r5.require(7)
     r7 = chk.rule("C03-R7", "KKT factories: a matrix whose in-place factorisation failed is rebuilt before reuse; assembly sites agree (the direct solve without inequalities relies on this single factorisation)",
                   "the problem without inequalities is solved by the documented KKT system also for singular P")
-    from .C07 import fallback_rule
+    from .C07 import fallback_rule, factory_state_rule
     fallback_rule(r7, w)
+    r8 = chk.rule("C03-R8", "KKT factories: the reduced matrix is symmetrised after the last lower-triangular contribution (P is in 'L' storage) and "
+                            "persistent work matrices are fully redefined at each factorisation",
+                  "only the lower triangle of P is read")
+    factory_state_rule(r8, w)
+    r8.require(6)
     r6 = chk.rule("C03-R6", "cone-space vectors normed with misc.snrm2/sdot", "documented relative norms")
     rc.norm_discipline(r6, w, "coneprog", "coneqp")
     r6.require(4)
